@@ -39,7 +39,7 @@ HOOK = {'calls': 0, 'violations': [], 'snap': {}}
 def gates(tier):
     return {'name_set_checks': 6000, 'confusable_checks': 40, 'history_steps': 60000,
             'history_sequences': 20000, 'failing_events_in_histories': 10000,
-            'cache_hits_in_histories': 5000, 'hook_calls': 60000, 'random_histories': 100, 'absolute_probes': 500, 'arity_checks': 4000}
+            'cache_hits_in_histories': 5000, 'hook_calls': 60000, 'random_histories': 100, 'absolute_probes': 500, 'arity_checks': 4000, 'reentrant_evaluations': 1200}
 
 
 # ----------------------------------------------------------------------------- (C) hook
@@ -444,9 +444,48 @@ def run_arity(ctx):
                 ctx.violation('C10:arity:wrong_call_not_an_argument_error', 'a %d-argument function called with %d arguments: %r' % (k, m, out), wit)
 
 
+def run_reentrant(ctx):
+    """A scope function that itself evaluates a formula (in a scope of its own): the outer evaluation goes on in ITS scope."""
+    from mitxgraders.helpers.calc import expressions as E
+    from mitxgraders.helpers.calc import DEFAULT_VARIABLES, DEFAULT_FUNCTIONS, MathArray
+    rng = ctx.rng
+    for i in range(ctx.n(1600, 20000)):
+        inner_x, inner_y = float(rng.randint(10, 20)), float(rng.randint(30, 40))
+        x, y = float(rng.randint(1, 5)), float(rng.randint(6, 9))
+
+        def g(t):
+            # evaluated with other values for the same names, another function table and an array-valued variable
+            v, _ = E.evaluator('x*y+h(t)+v*v', dict(DEFAULT_VARIABLES, x=inner_x, y=inner_y, t=t, v=MathArray([1.0, 2.0])),
+                               dict(DEFAULT_FUNCTIONS, h=lambda a: a * 100.0), {'%': 0.5, 'k': 7.0})
+            return v
+        gval = lambda t: inner_x * inner_y + 100.0 * t + 5.0
+        variables = dict(DEFAULT_VARIABLES, x=x, y=y)
+        funcs = dict(DEFAULT_FUNCTIONS, g=g, h=lambda a: a + 1.0)
+        cases = [('g(2)+y', gval(2) + y, set(['y']), set(['g'])), ('y+g(2)', y + gval(2), set(['y']), set(['g'])),
+                 ('g(x)*x+h(y)', gval(x) * x + y + 1, set(['x', 'y']), set(['g', 'h'])), ('g(1)+10%+2k', gval(1) + 0.1 + 2000.0, set(), set(['g'])),
+                 ('h(g(0))+x', gval(0) + 1 + x, set(['x']), set(['g', 'h']))]
+        s_, want, vars_, funcs_ = rng.choice(cases)
+        try:
+            val, meta = E.evaluator(s_, variables, funcs, {'%': 0.01, 'k': 1000.0})
+            out = ('ok', val, set(meta.variables_used), set(meta.functions_used), meta.max_array_dim_used)
+        except Exception as exc:  # noqa
+            out = ('exc', type(exc).__name__, str(exc)[:120])
+        ctx.ev()
+        ctx.count('reentrant_evaluations')
+        wit = {'string': s_, 'outer_scope': {'x': x, 'y': y}, 'inner_scope': {'x': inner_x, 'y': inner_y}, 'outcome': str(out)[:300]}
+        ctx.nontrivial(['reent', s_, x, y])
+        if out[0] != 'ok':
+            ctx.violation('C10:reentrant:raises', repr(out), wit)
+        elif abs(out[1] - want) > 1e-9 * max(1.0, abs(want)):
+            ctx.violation('C10:reentrant:value', 'got %r, the outer scope gives %r' % (out[1], want), wit)
+        elif out[2] != vars_ or out[3] != funcs_ or out[4] != 0:
+            ctx.violation('C10:reentrant:names', 'reported %r / %r / array dimension %r for %r' % (sorted(out[2]), sorted(out[3]), out[4], s_), wit)
+
+
 def run(ctx):
     install_hook(ctx)
     run_arity(ctx)
+    run_reentrant(ctx)
     run_names(ctx)
     run_histories(ctx)
     if ctx.inconclusive:
